@@ -158,6 +158,9 @@ TReOpen ==
 
 TWaited == Ev("Waited") /\ Adv /\ Keep(<<ost, hst, gst, fst, sst, smode, ver, sval, app, ebeg, endedB, bad, badl>>)
 
+\* scheduled replay: the wait was given up after its short budget (a gated thread was slow): no observation
+TWaitSkipped == Ev("WaitSkipped") /\ Adv /\ Keep(<<ost, hst, gst, fst, sst, smode, ver, sval, app, ebeg, endedB, bad, badl>>)
+
 TWaitTimeout == Ev("WaitTimeout") /\ Adv /\ Flag("lost: wait_for_data did not complete within its budget")
                 /\ Keep(<<ost, hst, gst, fst, sst, smode, ver, sval, app, ebeg, endedB>>)
 
@@ -165,7 +168,7 @@ TPanic == Ev("Panic") /\ Adv /\ Flag("panic: the code under test panicked")
           /\ Keep(<<ost, hst, gst, fst, sst, smode, ver, sval, app, ebeg, endedB>>)
 
 TNext_ == TReset \/ TNew \/ TMut \/ TSMut \/ TDropStart \/ TDropEnd \/ TEmitBegin \/ TAppend \/ TQuiesce
-          \/ TReOpen \/ TWaited \/ TWaitTimeout \/ TPanic
+          \/ TReOpen \/ TWaited \/ TWaitSkipped \/ TWaitTimeout \/ TPanic
 
 TSpec == TInit /\ [][TNext_]_tvars
 
